@@ -15,6 +15,7 @@ The trace is a list of canonical text lines (see `Trace`), the same lines the Le
 import asyncio
 import errno as _errno
 import json
+import subprocess
 import logging
 import os
 import signal
@@ -273,8 +274,21 @@ def make_popen(k):
             self.args = args
             self.pid = k.spawn({"args": args})
             self.returncode = None
-            self.stdout = None
-            self.stderr = None
+            # a watcher with stream options asks for pipes: real ones (the Redirector registers their descriptors with the
+            # loop); nothing is ever written, the write ends live as long as this object
+            self.stdout = self.stderr = None
+            self._wends = []
+            if not hasattr(k, "popens"):
+                k.popens = []
+            k.popens.append(self)
+            if stdout == subprocess.PIPE:
+                r, w = os.pipe()
+                self.stdout = os.fdopen(r, "rb", 0)
+                self._wends.append(w)
+            if stderr == subprocess.PIPE:
+                r, w = os.pipe()
+                self.stderr = os.fdopen(r, "rb", 0)
+                self._wends.append(w)
             name, wid = "?", "?"
             try:
                 name = args[args.index("--name") + 1]
@@ -323,6 +337,23 @@ def make_popen(k):
 
         def wait(self, timeout=None):
             raise NotImplementedError
+
+        def __del__(self):
+            self.close_pipes()
+
+        def close_pipes(self):
+            for w in getattr(self, "_wends", ()):
+                try:
+                    os.close(w)
+                except OSError:
+                    pass
+            self._wends = []
+            for f in (getattr(self, "stdout", None), getattr(self, "stderr", None)):
+                try:
+                    if f is not None:
+                        f.close()
+                except (OSError, ValueError):
+                    pass
 
     return FakePopen
 
@@ -389,11 +420,22 @@ class FakePub(object):
 
 
 class FakeStream(object):
+    """stands for the ZMQStream of the ROUTER socket.  `send` only queues: the message goes out when the loop polls the
+    socket in a later iteration, or at once through `flush()`.  The control socket has linger 0, so a message still queued
+    when the stream is closed — possible only when the loop has been stopped in the iteration that queued it — is lost."""
+
     def __init__(self, k, body_of):
         self.k = k
         self.body_of = body_of
         self._cid = None
         self.closed = False
+        self.queued = []             # observation lines of replies not yet on the wire
+        self.loop_stopped = lambda: False
+
+    def iteration_done(self):
+        """the loop goes around once more: everything queued is sent (unless the loop has been stopped: no more polls)"""
+        if not self.loop_stopped():
+            self.queued = []
 
     def send(self, data, flags=0, **kw):
         import zmq
@@ -406,15 +448,23 @@ class FakeStream(object):
         if resp.get("status") == "error" and not self.k.blocked:
             self.k.reasons.append(str(resp.get("reason")))
         cid = self._cid.decode() if isinstance(self._cid, bytes) else str(self._cid)
-        self.k.out("o rep %s %s %s %s %s" % (cid, encj(resp.get("id")),
-                                           resp.get("status"), resp.get("errno", "-") if resp.get("status") == "error" else "-",
-                                           self.body_of(resp)))
+        line = "o rep %s %s %s %s %s" % (cid, encj(resp.get("id")),
+                                         resp.get("status"), resp.get("errno", "-") if resp.get("status") == "error" else "-",
+                                         self.body_of(resp))
+        self.k.out(line)
+        self.queued.append(line)
 
     def flush(self, *a, **kw):
-        pass
+        self.queued = []
 
     def close(self):
         if not self.closed:
+            for line in self.queued:
+                # never reached the wire: the client gets no answer
+                if line in self.k.log:
+                    self.k.log.remove(line)
+                self.k.out("o lost-reply " + line[len("o rep "):])
+            self.queued = []
             self.k.out("o close ctrl")
         self.closed = True
 
@@ -444,6 +494,43 @@ def _lst(l):
     return "[" + ",".join(str(x) for x in l) + "]"
 
 
+# the watcher options the model's watcher record carries (lean/CircusModel/Core/Commands.lean `optionPairs`); every other
+# option of the real watcher (cmd, env, uid, …) is left out of the compared body on both sides
+OPT_MS = ("graceful_timeout", "warmup_delay")          # seconds (int or float) in circus, integer ms in the compared text
+OPT_INT = ("max_age", "max_retry", "numprocesses", "priority", "stop_signal")
+OPT_BOOL = ("on_demand", "respawn", "send_hup", "stop_children")
+OPT_TRUTH = ("singleton",)                               # never type-checked by circus: compared by truthiness
+GLOBAL_OPTS = ("endpoint", "stats_endpoint", "pubsub_endpoint", "check_delay", "multicast_endpoint")
+
+
+def option_value_text(k, v):
+    """canonical text of one option value (never a float); `?…` = a value of a type the model cannot hold"""
+    if k in OPT_MS:
+        if isinstance(v, (int, float)) and v == v and abs(v) < 1e9:
+            return "%d" % int(round(float(v) * 1000))
+        return "?%s" % type(v).__name__
+    if k in OPT_TRUTH:
+        return "true" if v else "false"
+    if k in OPT_BOOL:
+        return ("true" if v else "false") if isinstance(v, bool) else "?%s" % type(v).__name__
+    if isinstance(v, bool) or not isinstance(v, int):
+        return "?%s" % type(v).__name__
+    return "%d" % v
+
+
+def _options_text(opts):
+    """`options=` body of options / get (watcher options by name, sorted) and of globaloptions (the names, sorted)"""
+    if not isinstance(opts, dict):
+        return "options=?"
+    items = []
+    for k in sorted(opts):
+        if k in OPT_MS or k in OPT_INT or k in OPT_BOOL or k in OPT_TRUTH:
+            items.append("%s:%s" % (k, option_value_text(k, opts[k])))
+        elif k in GLOBAL_OPTS:
+            items.append(k)
+    return "options=" + ";".join(items)
+
+
 def body_of(resp):
     """the part of an ok-reply that is compared (DESIGN 4.4): results of the modelled commands"""
     if resp.get("status") == "error":
@@ -469,6 +556,11 @@ def body_of(resp):
         return "stats=%s:%s" % (enc(resp["name"]) if isinstance(resp["name"], str) else "?", _lst(list(resp["info"])))
     if "statuses" in resp:
         parts.append("statuses=" + ",".join("%s:%s" % (enc(n), st) for n, st in resp["statuses"].items()))
+    if "options" in resp:
+        parts.append(_options_text(resp["options"]))
+    if "sockets" in resp:
+        parts.append("sockets=" + (_lst([s.get("name") if isinstance(s, dict) else "?" for s in resp["sockets"]])
+                                   if isinstance(resp["sockets"], list) else "?"))
     if "info" in resp:
         i = resp["info"]
         if i is None:
@@ -499,6 +591,9 @@ def _hook(k, wname, hname, spec, counters):
 
 
 _SIM_CLASSES = {}
+
+
+CURRENT = None            # the Sim whose scenario is running (harness/simhooks.py reads its hook counters)
 
 
 def simify_arbiter(arb):
@@ -576,6 +671,11 @@ class Sim(object):
             return {"pid": process.pid}
         self._saved.append((P, "get_info", P.get_info))
         P.get_info = get_info
+        # `dstats` asks psutil about the daemon itself (here: the harness process, with a real 10 ms cpu_percent sleep):
+        # figures outside the model, replaced by a constant record
+        import circus.commands.dstats as D
+        self._saved.append((D, "get_info", D.get_info))
+        D.get_info = lambda process=None, interval=0, with_childs=False: {"pid": 0, "children": []}
         # the jitter added to max_age is a parameter of the model, fixed to the least value the code asks for
         # (`randint(0, max_age_variance)`: nothing is added) — a worker is never expired before max_age
         W.randint = lambda a, b: a
@@ -606,10 +706,14 @@ class Sim(object):
         ws = []
         for w in self.sc["watchers"]:
             ws.append(self.make_watcher(w, counters))
+            ws[-1]._verif_cfg = True          # a watcher of the configuration: its hook counters are in `counters`
         self.counters = counters
+        global CURRENT
+        CURRENT = self
         a = self.sc.get("arb", {})
         self.arb = A.Arbiter(ws, "ipc:///dev/shm/verif-none-ctl", "ipc:///dev/shm/verif-none-pub",
-                             check_delay=-1, loop=self.loop, warmup_delay=a.get("warmup_ms", 0) / 1000.0)
+                             check_delay=-1, loop=self.loop, warmup_delay=a.get("warmup_ms", 0) / 1000.0,
+                             endpoint_owner=a.get("owner"))
         simify_arbiter(self.arb)
         self.stop_requested = False
         self.loop.call_later = self._call_later
@@ -665,6 +769,23 @@ class Sim(object):
             self.settle()
         except BaseException:
             pass
+        # descriptors the scenario opened: worker pipes of watchers with stream options, their stream objects
+        for w in list(getattr(getattr(self, "arb", None), "watchers", None) or []):
+            red = getattr(w, "stream_redirector", None)
+            try:
+                if red is not None:
+                    red.stop()
+            except Exception:
+                pass
+            for ch in ("stdout_stream", "stderr_stream"):
+                so = getattr(w, ch, None)
+                try:
+                    if so is not None and hasattr(so, "close"):
+                        so.close()
+                except Exception:
+                    pass
+        for p in getattr(self.k, "popens", []):
+            p.close_pipes()
         self.aloop.close()
         asyncio.set_event_loop(None)
 
@@ -686,6 +807,11 @@ class Sim(object):
 
     def settle(self):
         for _ in range(10000):
+            st = getattr(getattr(self, "arb", None), "ctrl", None)
+            st = getattr(st, "stream", None)
+            if isinstance(st, FakeStream):
+                st.loop_stopped = lambda: self.stop_requested
+                st.iteration_done()
             self.aloop.call_soon(self.aloop.stop)
             try:
                 self.aloop.run_forever()
@@ -720,11 +846,14 @@ class Sim(object):
                     k.reasons.append(str(f.exception()))
                 else:
                     self._watch(f)
-            elif kind == "req":
-                raw = json.dumps(op[1]).encode()
-                self.arb.ctrl.handle_message([("c%d" % (op[2] if len(op) > 2 else 0)).encode(), raw])
-            elif kind == "raw":
-                self.arb.ctrl.handle_message([("c%d" % (op[2] if len(op) > 2 else 0)).encode(), bytes(op[1])])
+            elif kind in ("req", "raw"):
+                raw = json.dumps(op[1]).encode() if kind == "req" else bytes(op[1])
+                try:
+                    self.arb.ctrl.handle_message([("c%d" % (op[2] if len(op) > 2 else 0)).encode(), raw])
+                except Blocked:
+                    raise
+                except Exception as e:              # escaped from the recv handler: the loop logs it, nobody is answered
+                    k.out("o raised %s" % type(e).__name__)
             elif kind == "xreq":
                 # a request for a registered command whose execute() raises an exception of the named class
                 # (classes outside Exception included): dispatch has to turn it into one error reply
@@ -858,8 +987,26 @@ class Sim(object):
         return "s %s %s | %s | %s | %s | %s | t=%d" % (arb._exclusive_running_command or "-", flags, " ".join(ws) or "-",
                                                      names, sl, self.k.snapshot(), self.k.now)
 
+    def options_digest(self):
+        """for the oracles only (not compared with the model): per registered watcher, a digest of ALL its option values as the
+        real `Watcher.options()` reports them (cmd, env, uid, … included) — `name:digest` in list order"""
+        import hashlib
+        out = []
+        for w in self.arb.watchers:
+            try:
+                txt = json.dumps([[k, v] for k, v in w.options()], sort_keys=True, default=repr)
+            except Exception as e:                      # options() itself raised: that is a state of its own
+                txt = "raised %s" % type(e).__name__
+            out.append("%s:%s" % (enc(w.name), hashlib.sha1(txt.encode()).hexdigest()[:10]))
+        return " ".join(out) or "-"
+
+    def step_record(self, op):
+        return {"op": op, "lines": list(self.k.log), "snap": self.snapshot() if not self.blocked else "s blocked",
+                "slept": self.k.slept, "opts": self.options_digest() if not self.blocked else "-",
+                "reasons": list(self.k.reasons)}
+
     def run(self):
-        """returns list of steps: {"op":…, "lines":[…], "snap": "…", "slept": ms}"""
+        """returns list of steps: {"op":…, "lines":[…], "snap": "…", "slept": ms, "opts": "…"}"""
         steps = []
         self.setup()
         try:
@@ -867,8 +1014,7 @@ class Sim(object):
                 self.k.log = []
                 self.k.reasons = []
                 self.apply(op)
-                steps.append({"op": op, "lines": list(self.k.log), "snap": self.snapshot() if not self.blocked else "s blocked",
-                              "slept": self.k.slept, "reasons": list(self.k.reasons)})
+                steps.append(self.step_record(op))
                 if self.blocked:
                     break
         finally:
